@@ -97,7 +97,8 @@ func (cr *concRun) checkAudit() {
 			cr.fail(P("C14"), "strand.drain-status", -1, "at quiescence (no further calls) drainStatus=%d, write buffer holds %d events", a.DrainStatus, a.WriteBufferSize)
 		}
 		if a.WriteBufferSize != 0 {
-			cr.fail(P("C14"), "strand.write-buffer", -1, "at quiescence (no further calls) the write buffer still holds %d events (drainStatus=%d)", a.WriteBufferSize, a.DrainStatus)
+			// C16 as well: an event the write buffer accepted has not been handed to the consumer
+			cr.fail(P("C14", "C16"), "strand.write-buffer", -1, "at quiescence (no further calls) the write buffer still holds %d events (drainStatus=%d)", a.WriteBufferSize, a.DrainStatus)
 		}
 		if cfg.bounded() && a.DrainStatus == 0 && a.WriteBufferSize == 0 {
 			var tw uint64
